@@ -179,7 +179,9 @@ def checkTsT (c : Cache) (mono wall : Nat) (conn : Conn) (fromClient : Bool) (ts
         let u := uptimeFrom ts f
         (c, (if fromClient then { client := some u } else { server := some u }), arm ++ "/" ++ how)
       | none => (c.insert mono key badMarker cacheTtlMs, {}, "mark-bad:" ++ arm)
-  | none => (c.insert mono key { tsVal := ts, recvMs := wall } cacheTtlMs, {}, "store")
+  | none =>
+    (c.insert mono key { tsVal := ts, recvMs := wall } cacheTtlMs, {},
+     if (c.entries.find? (fun e => e.1 == key)).isSome then "store:expired" else "store")
 
 def checkTs (c : Cache) (mono wall : Nat) (conn : Conn) (fromClient : Bool) (ts : Nat) : Cache × Out :=
   let r := checkTsT c mono wall conn fromClient ts
